@@ -17,6 +17,7 @@ type faultPlan struct {
 	k     int    // index of the dependency call that fails; -1 = none
 	short bool   // for a Write: report one byte less, with an error
 	silent bool  // with short: report one byte less and NO error
+	writeErr error // every Write fails with this error (e.g. EINTR: an interrupted call that a caller may retry, here for ever)
 	halfReads bool // every Read delivers at most half of what was asked for (at least one byte), without error
 	shortFirstWrite bool // the first Write stores one byte less and reports that count with NO error
 	shortRead bool // for a Read: deliver half of what was asked, no error (a legal short read)
@@ -28,6 +29,16 @@ type faultPlan struct {
 }
 
 var errInjected = errors.New("injected fault")
+
+// the error injected faults carry: a generic one, or one of a particular kind (e.g. ENOENT)
+var injectedKind error
+
+func curInjected() error {
+	if injectedKind != nil {
+		return injectedKind
+	}
+	return errInjected
+}
 
 type recFs struct {
 	base  afero.Fs
@@ -58,7 +69,7 @@ func (r *recFs) Name() string { return "MemMapFS" }
 func (r *recFs) Create(name string) (afero.File, error) {
 	r.trace = append(r.trace, "X~create")
 	if r.dep("open") {
-		return nil, errInjected
+		return nil, curInjected()
 	}
 	f, err := r.base.Create(name)
 	if err != nil {
@@ -76,7 +87,7 @@ func (r *recFs) MkdirAll(path string, perm os.FileMode) error {
 }
 func (r *recFs) Open(name string) (afero.File, error) {
 	if r.dep("open") {
-		return nil, errInjected
+		return nil, curInjected()
 	}
 	f, err := r.base.Open(name)
 	if err != nil {
@@ -89,7 +100,7 @@ func (r *recFs) OpenFile(name string, flag int, perm os.FileMode) (afero.File, e
 		r.trace = append(r.trace, fmt.Sprintf("O~%s~%d", hx([]byte(name)), flag))
 	}
 	if r.dep("open") {
-		return nil, errInjected
+		return nil, curInjected()
 	}
 	f, err := r.base.OpenFile(name, flag, perm)
 	if err != nil {
@@ -130,6 +141,11 @@ type recFile struct {
 
 func (f *recFile) Write(p []byte) (int, error) {
 	f.fs.trace = append(f.fs.trace, "W~"+hx(p))
+	if f.fs.plan.writeErr != nil {
+		f.fs.plan.hit = true
+		f.fs.calls = append(f.fs.calls, "write")
+		return 0, f.fs.plan.writeErr
+	}
 	if f.fs.plan.shortFirstWrite && !f.fs.plan.hit && len(p) > 0 {
 		f.fs.plan.hit = true
 		f.fs.calls = append(f.fs.calls, "write")
@@ -142,9 +158,9 @@ func (f *recFile) Write(p []byte) (int, error) {
 			if f.fs.plan.silent {
 				return n, nil
 			}
-			return n, errInjected
+			return n, curInjected()
 		}
-		return 0, errInjected
+		return 0, curInjected()
 	}
 	return f.File.Write(p)
 }
@@ -167,7 +183,7 @@ func (f *recFile) Read(p []byte) (int, error) {
 	}
 	if f.fs.plan.shortRead && f.fs.plan.applied && f.fs.plan.thenFail {
 		f.fs.calls = append(f.fs.calls, "read")
-		return 0, errInjected
+		return 0, curInjected()
 	}
 	if f.fs.dep("read") {
 		if f.fs.plan.shortRead {
@@ -177,20 +193,20 @@ func (f *recFile) Read(p []byte) (int, error) {
 			f.fs.plan.applied = true
 			return f.File.Read(p[:len(p)/2])
 		}
-		return 0, errInjected
+		return 0, curInjected()
 	}
 	return f.File.Read(p)
 }
 func (f *recFile) Stat() (os.FileInfo, error) {
 	if f.fs.dep("stat") {
-		return nil, errInjected
+		return nil, curInjected()
 	}
 	return f.File.Stat()
 }
 func (f *recFile) Close() error {
 	if f.fs.dep("close") {
 		f.File.Close()
-		return errInjected
+		return curInjected()
 	}
 	return f.File.Close()
 }
